@@ -117,12 +117,19 @@ def run(rep, tier, props=('C12',)):
     predicted = collections.Counter()
     scenes_per_kind = collections.Counter()
     with tlc.Scratch() as sc:
-        for kind, label, P in configs(tier):
-            model = tlc.make_model('Query', sc, constants=dict(Kind=tla(kind), Fixed=tla(set(ALL_FLAGS)), P=_rec(P)),
-                                   invariants=INVARIANTS)
-            # coverage instrumentation is off: TLC's cost model explodes on the higher-order operators of this spec;
-            # the vacuity of the two actions is established from the exported histories instead
-            res = tlc.run_tlc(model, sc, workers=4, coverage=False, timeout=1500, java_opts=['-Xmx3g'])
+        cfgs = configs(tier)
+        models = [tlc.make_model('Query', sc, constants=dict(Kind=tla(kind), Fixed=tla(set(ALL_FLAGS)), P=_rec(P)),
+                                 invariants=INVARIANTS) for kind, label, P in cfgs]
+
+        def one(model):
+            # small runs (2 at a time, 2 workers each).  Coverage instrumentation is off: TLC's cost model
+            # explodes on the higher-order operators of this spec; that both actions are taken to the
+            # configured depth is established from the exported histories instead.
+            return tlc.run_tlc(model, sc, workers=2, coverage=False, timeout=2400, java_opts=['-Xmx3g'])
+        from concurrent.futures import ThreadPoolExecutor
+        with ThreadPoolExecutor(max_workers=2) as ex:
+            allres = list(ex.map(one, models))
+        for (kind, label, P), res in zip(cfgs, allres):
             tlc.require_ok(res, 'Query[%s %s]' % (kind, label), allow_violation=True)
             rep.add_tlc('Query[%s: %s]' % (kind, label), res)
             if res['violated']:
@@ -135,9 +142,8 @@ def run(rep, tier, props=('C12',)):
                 raise tlc.MachineryError('Query[%s %s] exported nothing' % (kind, label))
             for r in recs:
                 for qr in r['queries']:
-                    for alt in qr['alts']:
-                        for s in alt['sigs']:
-                            predicted['C12:' + s] += 1
+                    for s_ in {s_ for alt in qr['alts'] for s_ in alt['sigs']}:
+                        predicted['C12:' + s_] += 1
             if kind in ('ldr', 'dro'):
                 depth = max(len(r['hist']) for r in recs)
                 if depth != P['MaxSteps']:
@@ -171,7 +177,8 @@ def run(rep, tier, props=('C12',)):
         for f in r['findings']:
             if f['prop'] in props:
                 observed[f['sig']] += 1
-                rep.violation(f['sig'], f)
+                # full detail for the first cases of a signature, a slim record for the rest
+                rep.violation(f['sig'], f if observed[f['sig']] <= 5 else dict(sig=f['sig'], scene=f.get('scene'), query=f.get('query')))
             else:
                 d = rep.extra.setdefault('other_property_findings', {})
                 d[f['sig']] = d.get(f['sig'], 0) + 1
